@@ -149,6 +149,9 @@ def unsafe_inventory(under_contract):
     return {"unsafe_blocks_total": total, "unsafe_blocks_in_functions_under_contract": covered, "unsafe_blocks_not_covered": open_sites}
 
 
+STANDIN_PROPS = {"C01", "C02", "C03", "C04", "C05", "C06", "C07", "C08", "C11", "C12", "C14", "C15", "C16", "C18", "C19", "C20"}
+
+
 def uncovered(prop):
     p = os.path.join(VERIF, "uncovered.json")
     if os.path.exists(p):
@@ -192,11 +195,17 @@ def search(prop, seed, failures):
         b = subprocess.run(["cargo", "build", "--release", "--bin", "search"], cwd=rdir, env=env, capture_output=True, text=True, timeout=600)
         if b.returncode != 0:
             return {"input": None, "note": "searcher did not build: " + b.stderr[-800:]}
-        p = subprocess.run([exe, prop, str(seed)], capture_output=True, text=True, timeout=600)
+        p = subprocess.run([exe, prop, str(seed)], capture_output=True, text=True, timeout=900)
+        evaluated = 0
+        m = re.search(r"evaluated=(\d+)", p.stdout)
+        if m:
+            evaluated = int(m.group(1))
         for ln in p.stdout.split("\n"):
             if ln.startswith("FOUND "):
-                return {"input": json.loads(ln[6:]), "note": "bounded-exhaustive search over small inputs against the real crate"}
-        return {"input": None, "note": "searcher found no failing input (exit %d): %s" % (p.returncode, p.stdout[-300:])}
+                return {"input": json.loads(ln[6:]), "evaluated": evaluated, "note": "bounded-exhaustive / seeded search over small and structured inputs against the real crate, oracle written from the property text"}
+        if "NONE" not in p.stdout:
+            return {"input": None, "evaluated": 0, "error": True, "note": "searcher did not finish (exit %d): %s %s" % (p.returncode, p.stdout[-300:], p.stderr[-300:])}
+        return {"input": None, "evaluated": evaluated, "note": "searcher found no failing input: %s" % p.stdout.strip()[-200:]}
     except Exception as e:  # searcher is best effort
         return {"input": None, "note": "searcher error: %r" % e}
 
